@@ -558,7 +558,7 @@ def s_expired(vc):
     # when there is no Expires attribute (the whole class is the finding)
     K5 = Or(is_decimal(vc, text), is_negative_decimal(vc, text))
     want = Or(is_negative_decimal(vc, text), all_zeros(vc, text))
-    vc.ensure_kf("both.max_age_has_precedence", Implies(K5, Iff(r, want)), "KF-C54-5", K5)
+    vc.ensure("both.max_age_has_precedence", Implies(K5, Iff(r, want)))   # was KF-C54-5 (fixed in /repo: Max-Age is read first)
     vc.ensure("both.decided_by_expires_when_max_age_is_unusable", Implies(Not(is_lenient_number(vc, text)), Iff(r, _le(vc, exp_ts, now))))
 
 
